@@ -19,12 +19,13 @@ ASSUMPTIONS = ["a key is 'constant' iff every selected job has it with the same 
 
 MISSING = ("<missing>",)
 TA = [MISSING, None, False, True, 0, 1, 1.0, "a", [0], {"c": 0}, {"c": 1}, {}]
+TD = TA[:11] + [{"c": {"d": 0, "e": 0}}, {"c": {"d": 1, "e": 1}}, {"c": {"d": 0, "e": 1, "f": {"g": 0, "h": 0}}}, {"c": {"d": 0, "e": 1, "f": {"g": 1, "h": 1}}}]  # diff_jobs domain: no empty mapping, deeper nesting
 TB = [MISSING, 0, 1]
 
 
-def mksp(ia, ib):
+def mksp(ia, ib, table=None):
     sp = {}
-    a, b = pick(TA, ia), pick(TB, ib)
+    a, b = pick(table or TA, ia), pick(TB, ib)
     if a is not MISSING:
         sp["a"] = a
     if b is not MISSING:
@@ -125,10 +126,11 @@ def _diff_case(sps):
 
 
 def h_diff(a0: int, b0: int, a1: int, b1: int, a2: int, n: int):
-    assert 0 <= a0 < 11 and 0 <= a1 < 11 and 0 <= a2 < 11 and 0 <= b0 < 3 and 0 <= b1 < 3 and 0 <= n <= 3 and part_ok(a0)
+    assert 0 <= a0 < 15 and 0 <= a1 < 15 and 0 <= a2 < 15 and 0 <= b0 < 3 and 0 <= b1 < 3 and 0 <= n <= 3 and part_ok(a0)
     assert tier() != "quick" or n <= 2 or (a2 == a1 and b1 == 1)  # quick: the third job repeats the second (3 distinct jobs: thorough)
+    assert (n == 3 or a2 == 0) and (n >= 2 or (a1 == 0 and b1 == 0)) and (n >= 1 or b0 == 0)  # canonical encoding of unused slots
     fresh_path()
-    sps = [mksp(a0, b0), mksp(a1, b1), mksp(a2, 1)][: ci(n, 0, 3)]
+    sps = [mksp(a0, b0, TD), mksp(a1, b1, TD), mksp(a2, 1, TD)][: ci(n, 0, 3)]
     with nt():
         ok = _diff_case(sps) if sps else DF.diff_jobs() == {}
     reached()
@@ -145,5 +147,5 @@ def h_diff__reach(a0: int, b0: int, a1: int, b1: int, a2: int, n: int):
 HARNESSES = [
     dict(name="h_schema2", twin="h_schema2__reach", timeout=(400, 900), parts=(6, 12)),
     dict(name="h_schema3", timeout=(1500, 1500), parts=(12, 12), tiers=("thorough",)),
-    dict(name="h_diff", twin="h_diff__reach", timeout=(400, 900), parts=(11, 11), env={"VFH_DIFFN": ("2", "3")}),
+    dict(name="h_diff", twin="h_diff__reach", timeout=(400, 1500), parts=(15, 15)),
 ]
